@@ -31,7 +31,7 @@ func verifC07Check(src []int, w, h, c, p, near int) (why string) {
 			why = fmt.Sprintf("panic=%q", fmt.Sprint(r))
 		}
 	}()
-	enc, err := Encode(verifPack(src, p), w, h, c, p, near)
+	enc, err := Encode(verifJlsPack(src, p), w, h, c, p, near)
 	if err != nil {
 		return fmt.Sprintf("encode_err=%q", err.Error())
 	}
@@ -45,7 +45,7 @@ func verifC07Check(src []int, w, h, c, p, near int) (why string) {
 	if dnear != near {
 		return fmt.Sprintf("reported_near=%d", dnear)
 	}
-	got, ok := verifUnpack(out, p, w*h*c)
+	got, ok := verifJlsUnpack(out, p, w*h*c)
 	if !ok {
 		return fmt.Sprintf("decoded_len=%d want_samples=%d", len(out), w*h*c)
 	}
@@ -86,7 +86,7 @@ func verifC07NearSet(p int) []int {
 	return out
 }
 
-var verifC07Kinds = append(append([]string{}, verifContentKinds...), "nearedges", "nearramp", "nearjitter")
+var verifC07Kinds = append(append([]string{}, verifJlsContentKinds...), "nearedges", "nearramp", "nearjitter")
 
 type verifC07Counts struct {
 	cases, fails map[string]int
@@ -119,7 +119,7 @@ func TestVerif_C07_BoundStructured(t *testing.T) {
 	sizes := []size{{1, 1}, {1, 2}, {2, 1}, {2, 2}, {3, 3}, {1, 17}, {17, 1}, {8, 8}, {33, 5}, {40, 40}}
 	reps := 2
 	big := map[size]bool{} // sizes visited with a single variant
-	if verifThorough() {
+	if verifJlsThorough() {
 		sizes = append(sizes, size{64, 64}, size{300, 3}, size{5, 70}, size{512, 512}, size{65535, 1})
 		big[size{512, 512}], big[size{65535, 1}] = true, true
 		reps = 8
@@ -128,9 +128,9 @@ func TestVerif_C07_BoundStructured(t *testing.T) {
 	for _, s := range sizes {
 		sz = append(sz, fmt.Sprintf("%dx%d", s.w, s.h))
 	}
-	rep := verifNewReport(t, "TestVerif_C07_BoundStructured", fmt.Sprintf(
+	rep := verifJlsNewReport(t, "TestVerif_C07_BoundStructured", fmt.Sprintf(
 		"nearlossless.Encode(NEAR)->Decode: |dec-src|<=NEAR, 0<=dec<=MAXVAL, reported NEAR, geometry; P in 2..16 x NEAR in {0,1,2,3,7,min(255,MAXVAL/2)} x components {1,3} x WxH {%s} x contents {%s} x %d seeded variants (1 for sizes above 60000 samples) (seed %d)",
-		strings.Join(sz, ","), strings.Join(verifC07Kinds, ","), reps, verifSeed()))
+		strings.Join(sz, ","), strings.Join(verifC07Kinds, ","), reps, verifJlsSeed()))
 	var cc verifC07Counts
 	for p := 2; p <= 16; p++ {
 		for _, near := range verifC07NearSet(p) {
@@ -141,13 +141,13 @@ func TestVerif_C07_BoundStructured(t *testing.T) {
 							if v > 0 && big[s] {
 								break
 							}
-							r := verifNewRNG(fmt.Sprintf("c07s/%d/%d/%d/%dx%d/%s/%d", p, near, c, s.w, s.h, kind, v))
-							src := verifGenImage(kind, s.w, s.h, c, p, near, r)
+							r := verifJlsNewRNG(fmt.Sprintf("c07s/%d/%d/%d/%dx%d/%s/%d", p, near, c, s.w, s.h, kind, v))
+							src := verifJlsGenImage(kind, s.w, s.h, c, p, near, r)
 							rep.cases++
 							why := verifC07Check(src, s.w, s.h, c, p, near)
 							cc.add(fmt.Sprintf("P%02d", p), why != "")
 							if why != "" {
-								rep.fail("P=%d near=%d comps=%d w=%d h=%d kind=%s variant=%d %s src=%s", p, near, c, s.w, s.h, kind, v, why, verifFmtSamples(src))
+								rep.fail("P=%d near=%d comps=%d w=%d h=%d kind=%s variant=%d %s src=%s", p, near, c, s.w, s.h, kind, v, why, verifJlsFmtSamples(src))
 							}
 						}
 					}
@@ -168,7 +168,7 @@ func TestVerif_C07_EveryNear(t *testing.T) {
 	}
 	imgs := []img{{"noise", 9, 5}, {"nearedges", 7, 3}, {"nearramp", 12, 2}, {"nearjitter", 11, 3}, {"halfrange", 6, 4}}
 	reps := 2
-	if verifThorough() {
+	if verifJlsThorough() {
 		imgs = append(imgs, img{"runs", 40, 6}, img{"twolevel", 8, 8}, img{"noise", 64, 16})
 		reps = 4
 	}
@@ -176,22 +176,22 @@ func TestVerif_C07_EveryNear(t *testing.T) {
 	for _, im := range imgs {
 		names = append(names, fmt.Sprintf("%s %dx%d", im.kind, im.w, im.h))
 	}
-	rep := verifNewReport(t, "TestVerif_C07_EveryNear", fmt.Sprintf(
+	rep := verifJlsNewReport(t, "TestVerif_C07_EveryNear", fmt.Sprintf(
 		"nearlossless.Encode(NEAR)->Decode bound/range/NEAR/geometry; every P in 2..16 x EVERY NEAR in 0..min(255,MAXVAL/2) x components {1,3} x images {%s} x %d seeded variants (seed %d)",
-		strings.Join(names, "; "), reps, verifSeed()))
+		strings.Join(names, "; "), reps, verifJlsSeed()))
 	var cc verifC07Counts
 	for p := 2; p <= 16; p++ {
 		for near := 0; near <= verifC07NearMax(p); near++ {
 			for _, c := range []int{1, 3} {
 				for _, im := range imgs {
 					for v := 0; v < reps; v++ {
-						r := verifNewRNG(fmt.Sprintf("c07n/%d/%d/%d/%s/%d", p, near, c, im.kind, v))
-						src := verifGenImage(im.kind, im.w, im.h, c, p, near, r)
+						r := verifJlsNewRNG(fmt.Sprintf("c07n/%d/%d/%d/%s/%d", p, near, c, im.kind, v))
+						src := verifJlsGenImage(im.kind, im.w, im.h, c, p, near, r)
 						rep.cases++
 						why := verifC07Check(src, im.w, im.h, c, p, near)
 						cc.add(fmt.Sprintf("P%02d", p), why != "")
 						if why != "" {
-							rep.fail("P=%d near=%d comps=%d w=%d h=%d kind=%s variant=%d %s src=%s", p, near, c, im.w, im.h, im.kind, v, why, verifFmtSamples(src))
+							rep.fail("P=%d near=%d comps=%d w=%d h=%d kind=%s variant=%d %s src=%s", p, near, c, im.w, im.h, im.kind, v, why, verifJlsFmtSamples(src))
 						}
 					}
 				}
@@ -212,14 +212,14 @@ func TestVerif_C07_ExhaustiveSmall(t *testing.T) {
 		{4, 1, 1, 1}, {4, 1, 2, 1}, {4, 1, 1, 2}, {4, 1, 3, 1}, {4, 1, 1, 3}, {4, 3, 1, 1},
 		{4, 1, 2, 2},
 	}
-	if verifThorough() {
+	if verifJlsThorough() {
 		cfgs = append(cfgs, cfg{2, 1, 3, 3}, cfg{3, 1, 4, 1}, cfg{3, 1, 1, 4}, cfg{3, 1, 3, 2}, cfg{3, 1, 2, 3}, cfg{2, 3, 3, 1}, cfg{2, 3, 1, 3})
 	}
 	var names []string
 	for _, g := range cfgs {
 		names = append(names, fmt.Sprintf("P%d/%dc/%dx%d", g.p, g.c, g.w, g.h))
 	}
-	rep := verifNewReport(t, "TestVerif_C07_ExhaustiveSmall", fmt.Sprintf(
+	rep := verifJlsNewReport(t, "TestVerif_C07_ExhaustiveSmall", fmt.Sprintf(
 		"nearlossless.Encode(NEAR)->Decode bound/range/NEAR/geometry; ALL images of {%s} x every NEAR in 0..MAXVAL/2",
 		strings.Join(names, ",")))
 	var cc verifC07Counts
@@ -242,7 +242,7 @@ func TestVerif_C07_ExhaustiveSmall(t *testing.T) {
 				why := verifC07Check(src, g.w, g.h, g.c, g.p, near)
 				cc.add(fmt.Sprintf("P%d/near%d", g.p, near), why != "")
 				if why != "" {
-					rep.fail("P=%d near=%d comps=%d w=%d h=%d %s src=%s", g.p, near, g.c, g.w, g.h, why, verifFmtSamples(src))
+					rep.fail("P=%d near=%d comps=%d w=%d h=%d %s src=%s", g.p, near, g.c, g.w, g.h, why, verifJlsFmtSamples(src))
 				}
 			}
 		}
